@@ -171,6 +171,10 @@ type scout struct {
 	Scripts  []ot.Tag
 	Family   string
 	OK       bool
+	// MidCoords: normalized coordinates of the middle of the design space, computed on the
+	// private parse. One slice per font: the goroutines of a round hand this very slice to
+	// Face.SetCoords (an application that normalizes once and configures all its faces).
+	MidCoords []font.VarCoord
 }
 
 var scoutCache = map[string]*scout{}
@@ -257,6 +261,13 @@ func getScout(id faceID) *scout {
 			}
 		}
 		s.Family = ft.Describe().Family
+		if len(s.Axes) > 0 {
+			design := make([]float32, len(s.Axes))
+			for i, a := range s.Axes {
+				design[i] = a.Min + (a.Max-a.Min)*3/8
+			}
+			s.MidCoords = ft.NormalizeVariations(design)
+		}
 		s.OK = s.NGlyphs > 0
 	}()
 	return s
